@@ -91,3 +91,47 @@ MANIFEST = {
     "text": "Theorems (Props/C15.lean), for ALL iteration orders: the %avoid_insert bit vector is independent of the key order (avoid_insert_order_indep); pager.rs gc returns exactly the states reachable from the start state whatever element the work set yields next (gc_reach_spec, gc_reach_order_indep); the unrepaired numbering of the Eco `~: T ~` productions differs for every two distinct orders (implicit_prods_order_DEPENDENT, implicit_prods_orig_injective) while the repaired one is order independent, sorted by token index and consecutive (implicit_prods_order_indep, implicit_prods_sorted); filling the action/goto cells of a state from its edges is order independent (edges_fill_order_indep). Tie: every generated grammar is pushed through text -> YaccGrammar -> state graph -> table -> CTLexerBuilder/CTParserBuilder in 8 (quick) / 48 (thorough) separate processes and all digests must coincide; model and specification are evaluated on the map orders actually observed in each process.",
     "note": "The theorems cover the sites classified order-relevant in the audit (tools/propcfg/C15.py AUDIT, re-derived by tools/extract.py on each run; a new unaudited site breaks the tie); the remaining determinism of the pipeline (FNV-hashed item sets, IndexMap, Vec order) is established by exploration across processes only, so the quantifier over grammars and over hash seeds is sampled. Thread interleavings of first use are OBSERVED (8 threads x 6/25 rounds racing on a OnceLock initialised with _reconstitute from the bytes of the generated module), not proved: Lean has no model of OnceLock. Not proved: termination of gc within nstates+1 rounds (the driver reports a fuel-out), and equality of the repaired numbering with the order-free specification implicitProdsSpec (checked differentially on every case). Three defects found and repaired: implicit-token production order, shift/reduce conflict list order inside generated modules, order of equally ranked CPCT+ repair sequences.",
 }
+
+# every `static` item of the four library crates (non-test code, `quote!` blocks included), classified
+AUDIT_STATICS = [
+    {"file": 'cfgrammar/src/lib/yacc/parser.rs', "name": 'RE_NAME', "kind": 'static LazyLock<Regex>',
+     "cls": 'immutable: a compiled regular expression, initialised once, never written'},
+    {"file": 'cfgrammar/src/lib/yacc/parser.rs', "name": 'RE_TOKEN', "kind": 'static LazyLock<Regex>',
+     "cls": 'immutable: a compiled regular expression, initialised once, never written'},
+    {"file": 'cfgrammar/src/lib/header.rs', "name": 'RE_LEADING_WS', "kind": 'static LazyLock<Regex>',
+     "cls": 'immutable: a compiled regular expression, initialised once, never written'},
+    {"file": 'cfgrammar/src/lib/header.rs', "name": 'RE_NAME', "kind": 'static LazyLock<Regex>',
+     "cls": 'immutable: a compiled regular expression, initialised once, never written'},
+    {"file": 'cfgrammar/src/lib/header.rs', "name": 'RE_DIGITS', "kind": 'static LazyLock<Regex>',
+     "cls": 'immutable: a compiled regular expression, initialised once, never written'},
+    {"file": 'cfgrammar/src/lib/header.rs', "name": 'RE_STRING', "kind": 'static LazyLock<Regex>',
+     "cls": 'immutable: a compiled regular expression, initialised once, never written'},
+    {"file": 'lrpar/src/lib/ctbuilder.rs', "name": 'GENERATED_PATHS', "kind": 'static LazyLock<Mutex<HashSet<PathBuf>>>',
+     "cls": "build time only: the registry of output paths of one build script (C18's subject), not reachable from a parse"},
+    {"file": 'lrpar/src/lib/ctbuilder.rs', "name": 'DATA', "kind": 'static ::std::sync::OnceLock<::lrpar::ParserData<#storaget>>',
+     "cls": 'generated parsers: the reconstituted grammar and table, written once (OnceLock) from constant bytes, then read-only - racing first use is exercised by thread_check'},
+    {"file": 'lrlex/src/lib/ctbuilder.rs', "name": 'RE_TOKEN_ID', "kind": 'static LazyLock<Regex>',
+     "cls": 'immutable: a compiled regular expression, initialised once, never written'},
+    {"file": 'lrlex/src/lib/ctbuilder.rs', "name": 'GENERATED_PATHS', "kind": 'static LazyLock<Mutex<HashSet<PathBuf>>>',
+     "cls": "build time only: the registry of output paths of one build script (C18's subject), not reachable from a parse"},
+    {"file": 'lrlex/src/lib/parser.rs', "name": 'RE_START_STATE_NAME', "kind": 'static LazyLock<Regex>',
+     "cls": 'immutable: a compiled regular expression, initialised once, never written'},
+    {"file": 'lrlex/src/lib/parser.rs', "name": 'RE_INCLUSIVE_START_STATE_DECLARATION', "kind": 'static LazyLock<Regex>',
+     "cls": 'immutable: a compiled regular expression, initialised once, never written'},
+    {"file": 'lrlex/src/lib/parser.rs', "name": 'RE_EXCLUSIVE_START_STATE_DECLARATION', "kind": 'static LazyLock<Regex>',
+     "cls": 'immutable: a compiled regular expression, initialised once, never written'},
+    {"file": 'lrlex/src/lib/parser.rs', "name": 'RE_LEX_ESC_LITERAL', "kind": 'static LazyLock<Regex>',
+     "cls": 'immutable: a compiled regular expression, initialised once, never written'},
+    {"file": 'lrlex/src/lib/parser.rs', "name": 'RE_LINE_SEP', "kind": 'static LazyLock<Regex>',
+     "cls": 'immutable: a compiled regular expression, initialised once, never written'},
+    {"file": 'lrlex/src/lib/parser.rs', "name": 'RE_LEADING_LINE_SEPS', "kind": 'static LazyLock<Regex>',
+     "cls": 'immutable: a compiled regular expression, initialised once, never written'},
+    {"file": 'lrlex/src/lib/parser.rs', "name": 'RE_SPACE_SEP', "kind": 'static LazyLock<Regex>',
+     "cls": 'immutable: a compiled regular expression, initialised once, never written'},
+    {"file": 'lrlex/src/lib/parser.rs', "name": 'RE_LEADING_SPACE_SEPS', "kind": 'static LazyLock<Regex>',
+     "cls": 'immutable: a compiled regular expression, initialised once, never written'},
+    {"file": 'lrlex/src/lib/parser.rs', "name": 'RE_LEADING_WS', "kind": 'static LazyLock<Regex>',
+     "cls": 'immutable: a compiled regular expression, initialised once, never written'},
+    {"file": 'lrlex/src/lib/parser.rs', "name": 'RE_WS', "kind": 'static LazyLock<Regex>',
+     "cls": 'immutable: a compiled regular expression, initialised once, never written'},
+]
